@@ -51,18 +51,27 @@ deriving DecidableEq, Repr
 abbrev Res := Except Unit Val
 def valueError : Res := .error ()
 
+instance : DecidableEq Res := fun a b =>
+  match a, b with
+  | .ok x, .ok y => if h : x = y then isTrue (by rw [h]) else isFalse (by intro e; cases e; exact h rfl)
+  | .error (), .error () => isTrue rfl
+  | .ok _, .error _ => isFalse (by intro e; cases e)
+  | .error _, .ok _ => isFalse (by intro e; cases e)
+
 /-! ### characters -/
 
-def isDigit (c : Char) : Bool := '0' ≤ c && c ≤ '9'
-def isLetter_ (c : Char) : Bool := ('a' ≤ c && c ≤ 'z') || ('A' ≤ c && c ≤ 'Z') || c == '_'
+-- character classes are written on code points (`'0'` = 48, `'A'` = 65, `'a'` = 97, `'_'` = 95)
+def isDigit (c : Char) : Bool := 48 ≤ c.toNat && c.toNat ≤ 57
+def isLetter_ (c : Char) : Bool :=
+  (97 ≤ c.toNat && c.toNat ≤ 122) || (65 ≤ c.toNat && c.toNat ≤ 90) || c.toNat == 95
 def isWord (c : Char) : Bool := isLetter_ c || isDigit c          -- `\w` (ASCII)
-def digitVal (c : Char) : Nat := c.toNat - '0'.toNat
+def digitVal (c : Char) : Nat := c.toNat - 48
 def hexVal? (c : Char) : Option Nat :=
-  if isDigit c then some (c.toNat - '0'.toNat)
-  else if 'a' ≤ c && c ≤ 'f' then some (c.toNat - 'a'.toNat + 10)
-  else if 'A' ≤ c && c ≤ 'F' then some (c.toNat - 'A'.toNat + 10)
+  if isDigit c then some (c.toNat - 48)
+  else if 97 ≤ c.toNat && c.toNat ≤ 102 then some (c.toNat - 97 + 10)
+  else if 65 ≤ c.toNat && c.toNat ≤ 70 then some (c.toNat - 65 + 10)
   else none
-def lowerC (c : Char) : Char := if 'A' ≤ c && c ≤ 'Z' then Char.ofNat (c.toNat + 32) else c
+def lowerC (c : Char) : Char := if 65 ≤ c.toNat && c.toNat ≤ 90 then Char.ofNat (c.toNat + 32) else c
 /-- `text.lower()` (ASCII) -/
 def lower (s : Str) : Str := s.map lowerC
 
@@ -72,6 +81,16 @@ def isPySpace (c : Char) : Bool :=
   (9 ≤ n && n ≤ 13) || (28 ≤ n && n ≤ 32) || n == 0x85 || n == 0xa0 || n == 0x1680 ||
   (0x2000 ≤ n && n ≤ 0x200a) || n == 0x2028 || n == 0x2029 || n == 0x202f || n == 0x205f ||
   n == 0x3000
+
+/-- `Py_ISSPACE` -/
+def isCSpace (c : Char) : Bool := (9 ≤ c.toNat && c.toNat ≤ 13) || c == ' '
+
+/-- White space for `int()`, `float()`, `complex()` of a `str`: CPython first maps the text to ASCII
+(`_PyUnicode_TransformDecimalAndSpaceToASCII`: every `Py_UNICODE_ISSPACE` character becomes a space) —
+but returns a text that is already pure ASCII unchanged — and then skips `Py_ISSPACE` characters.
+So `\x1c`–`\x1f` count as white space only when the text also holds a non-ASCII character. -/
+def numSpace (text : Str) (c : Char) : Bool :=
+  if text.all (fun c => c.toNat < 128) then isCSpace c else isPySpace c
 
 def rstripBy (p : Char → Bool) : Str → Str
   | [] => []
@@ -144,12 +163,16 @@ def latLon (seps : Str) (t : Str) : Option (FloatV × FloatV) :=
     else none
   | _ => none
 
+/-- an optional sign: `(is it '-', rest)` -/
+def splitSign (s : Str) : Bool × Str :=
+  match s with
+  | '-' :: r => (true, r)
+  | '+' :: r => (false, r)
+  | _ => (false, s)
+
 /-- `([-+]?\d+\.\d*|[-+]?\d+)` at the front: `float` of the captured text, and the rest -/
 def numTok (s : Str) : Option (FloatV × Str) :=
-  let (neg, s1) := match s with
-    | '-' :: r => (true, r)
-    | '+' :: r => (false, r)
-    | _ => (false, s)
+  let (neg, s1) := splitSign s
   match digits1 s1 with
   | some (ip, '.' :: r) => some (decOf neg ip (r.takeWhile isDigit), r.dropWhile isDigit)
   | some (ip, r) => some (decOf neg ip [], r)
@@ -202,26 +225,33 @@ def intDigits (base : Nat) : Str → Nat → Bool → Bool → Option Nat
       | some v => if v < base then intDigits base cs (acc * base + v) false true else none
       | none => none
 
+/-- the `0x`/`0X` prefix, accepted only for base 16: `(rest, was there a prefix)` -/
+def stripPrefix16 (base : Nat) (s : Str) : Str × Bool :=
+  match s with
+  | '0' :: x :: r => if base == 16 && (x == 'x' || x == 'X') then (r, true) else (s, false)
+  | _ => (s, false)
+
+/-- "one underscore allowed here": directly after the prefix -/
+def skipOneUnderscore (pre : Bool) (s : Str) : Str :=
+  match s with
+  | '_' :: r => if pre then r else s
+  | _ => s
+
+/-- the digits; "may not start with underscores" -/
+def intBody (base : Nat) (s : Str) : Option Nat :=
+  match s with
+  | '_' :: _ => none
+  | _ => intDigits base s 0 false false
+
+/-- after white space and sign -/
+def pyIntAbs (base : Nat) (s : Str) : Option Nat :=
+  let p := stripPrefix16 base s
+  intBody base (skipOneUnderscore p.2 p.1)
+
 /-- `int(text, base)` for `base` 10 or 16 -/
 def pyInt (base : Nat) (text : Str) : Option Int :=
-  let s := stripBy isPySpace text
-  let (neg, s) := match s with
-    | '-' :: r => (true, r)
-    | '+' :: r => (false, r)
-    | _ => (false, s)
-  -- `0x` prefix for base 16, then at most one underscore
-  let (s, pre) := match s with
-    | '0' :: x :: r => if base == 16 && (x == 'x' || x == 'X') then (r, true) else (s, false)
-    | _ => (s, false)
-  let s := match s with
-    | '_' :: r => if pre then r else s
-    | _ => s
-  match s with
-  | '_' :: _ => none                         -- "may not start with underscores"
-  | _ =>
-    match intDigits base s 0 false false with
-    | some n => some (if neg then - (n : Int) else (n : Int))
-    | none => none
+  let p := splitSign (stripBy (numSpace text) text)
+  (pyIntAbs base p.2).map (fun n => if p.1 then - (n : Int) else (n : Int))
 
 /-! ### CPython: `float(text)`, `complex(text)` -/
 
@@ -241,10 +271,7 @@ def ciPrefix (p : Str) (s : Str) : Option Str :=
 /-- `strtod`-like longest float prefix (`_PyOS_ascii_strtod`): sign, then `inf`/`infinity`/`nan`
 or `digits[.digits][e[sign]digits]` with at least one mantissa digit -/
 def floatPrefix (s : Str) : Option (FloatV × Str) :=
-  let (neg, s1) := match s with
-    | '-' :: r => (true, r)
-    | '+' :: r => (false, r)
-    | _ => (false, s)
+  let (neg, s1) := splitSign s
   match ciPrefix "inf".toList s1 with
   | some r =>
     (match ciPrefix "inity".toList r with
@@ -281,7 +308,7 @@ def floatPrefix (s : Str) : Option (FloatV × Str) :=
 
 /-- `float(text)` -/
 def pyFloat (text : Str) : Option FloatV :=
-  match dropUnderscores (stripBy isPySpace text) 'x' with
+  match dropUnderscores (stripBy (numSpace text) text) 'x' with
   | some s =>
     match floatPrefix s with
     | some (v, []) => some v
@@ -315,33 +342,36 @@ def complexBody (s : Str) : Option (FloatV × FloatV × Str) :=
      | [] => some (z, zero, []))
   | none =>
     -- <sign>j | j
-    let (neg, r) := match s with
-      | '-' :: q => (true, q)
-      | '+' :: q => (false, q)
-      | _ => (false, s)
+    let (neg, r) := splitSign s
     match r with
     | j :: r2 => if isJ j then some (zero, one neg, r2) else none
     | [] => none
 
 /-- `complex(text)` -/
 def pyComplex (text : Str) : Option (FloatV × FloatV) :=
-  match dropUnderscores (stripBy isPySpace text) 'x' with
+  match dropUnderscores (stripBy (numSpace text) text) 'x' with
   | some s =>
     let (br, s) := match s with
-      | '(' :: r => (true, r.dropWhile isPySpace)
+      | '(' :: r => (true, r.dropWhile (numSpace text))
       | _ => (false, s)
     (match complexBody s with
      | some (re, im, r) =>
-       let r := r.dropWhile isPySpace
+       let r := r.dropWhile (numSpace text)
        if br then
          (match r with
-          | ')' :: r2 => if (r2.dropWhile isPySpace).isEmpty then some (re, im) else none
+          | ')' :: r2 => if (r2.dropWhile (numSpace text)).isEmpty then some (re, im) else none
           | _ => none)
        else if r.isEmpty then some (re, im) else none
      | none => none)
   | none => none
 
 /-! ### the converters, function by function as in building.py -/
+
+/-- `try: return f(text)  except ValueError: raise ValueError("Expected … got …")` -/
+def reraise (r : Res) : Res :=
+  match r with
+  | .ok v => .ok v
+  | .error _ => valueError
 
 def convert2Num (t : Str) : Res :=
   match pyInt 10 t with
@@ -367,9 +397,7 @@ def convert2CoordNum (t : Str) : Res :=
   match latLon sepSW t with
   | some (d, m) => .ok (.coord true d m)
   | none =>
-  match convert2Num t with
-  | .ok v => .ok v
-  | .error _ => valueError
+  reraise (convert2Num t)
 
 def isNone (t : Str) : Bool := lower t == "none".toList
 def isTrue (t : Str) : Bool := lower t == "true".toList || lower t == "yes".toList
@@ -379,16 +407,12 @@ def convert2BoolCoordNum (t : Str) : Res :=
   if isNone t then .ok .none
   else if isTrue t then .ok (.bool true)
   else if isFalse t then .ok (.bool false)
-  else match convert2CoordNum t with
-    | .ok v => .ok v
-    | .error _ => valueError
+  else reraise (convert2CoordNum t)
 
 def convert2StrBoolCoordNum (t : Str) : Res :=
   if quotedBy '"' t then .ok (.str (stripBy (· == '"') t))
   else if quotedBy '\'' t then .ok (.str (stripBy (· == '\'') t))
-  else match convert2BoolCoordNum t with
-    | .ok v => .ok v
-    | .error _ => valueError
+  else reraise (convert2BoolCoordNum t)
 
 def sX : Str := "Xx,".toList
 def sY : Str := "Yy,".toList
@@ -422,9 +446,7 @@ def convert2PointNum (t : Str) : Res :=
   match point3 sF sS sB t with
   | some cs => .ok (.point .fsb cs)
   | none =>
-  match convert2Num t with
-  | .ok v => .ok v
-  | .error _ => valueError
+  reraise (convert2Num t)
 
 def convert2CoordPointNum (t : Str) : Res :=
   match latLon sepNE t with
@@ -433,38 +455,28 @@ def convert2CoordPointNum (t : Str) : Res :=
   match latLon sepSW t with
   | some (d, m) => .ok (.coord true d m)
   | none =>
-  match convert2PointNum t with
-  | .ok v => .ok v
-  | .error _ => valueError
+  reraise (convert2PointNum t)
 
 def convert2BoolCoordPointNum (t : Str) : Res :=
   if isNone t then .ok .none
   else if isTrue t then .ok (.bool true)
   else if isFalse t then .ok (.bool false)
-  else match convert2CoordPointNum t with
-    | .ok v => .ok v
-    | .error _ => valueError
+  else reraise (convert2CoordPointNum t)
 
 def convert2PathCoordPointNum (t : Str) : Res :=
   if pathNode t then .ok (.str t)
-  else match convert2CoordPointNum t with
-    | .ok v => .ok v
-    | .error _ => valueError
+  else reraise (convert2CoordPointNum t)
 
 def convert2BoolPathCoordPointNum (t : Str) : Res :=
   if isNone t then .ok .none
   else if isTrue t then .ok (.bool true)
   else if isFalse t then .ok (.bool false)
-  else match convert2PathCoordPointNum t with
-    | .ok v => .ok v
-    | .error _ => valueError
+  else reraise (convert2PathCoordPointNum t)
 
 def convert2StrBoolPathCoordPointNum (t : Str) : Res :=
   if quotedBy '"' t then .ok (.str (stripBy (· == '"') t))
   else if quotedBy '\'' t then .ok (.str (stripBy (· == '\'') t))
-  else match convert2BoolPathCoordPointNum t with
-    | .ok v => .ok v
-    | .error _ => valueError
+  else reraise (convert2BoolPathCoordPointNum t)
 
 /-- `StripQuotes` -/
 def stripQuotes (t : Str) : Str :=
@@ -516,7 +528,7 @@ def orderNum : List Recog := ordNum
 
 /-! ### literal writers (for the round-trip statements) -/
 
-def digitChar (n : Nat) : Char := Char.ofNat ('0'.toNat + n % 10)
+def digitChar (n : Nat) : Char := Char.ofNat (48 + n % 10)
 
 /-- decimal digits of a natural number, most significant first -/
 def showNat (n : Nat) : Str :=
